@@ -20,7 +20,8 @@ LEVEL_NOTE = "trusted: SciPy's engines (points are taken as given), the matching
 ANCHOR_FILES = ["src/ropt/plugins/sampler/scipy.py", "src/ropt/plugins/sampler/base.py", "src/ropt/ensemble_evaluator/_ensemble_evaluator.py"]
 RULE = ("case = one sampler configuration (method, R, P, V, mask, assignment, shared, seed) called 3 times; non-trivial if the sampler handles at least one variable; "
         "QMC cases additionally need V_handled>1 and R*P>1 to be able to expose scrambling (counted separately); distinct key = case index")
-ASSUMPTIONS = ["non-shared realizations 'differ' is only required when R>=2 and at least one handled variable (probability of an accidental tie is negligible for continuous draws)"]
+ASSUMPTIONS = ["the array returned by generate_samples belongs to the caller (ropt itself adds the other samplers' output into it in place), so the harness overwrites it between calls",
+               "non-shared realizations 'differ' is only required when R>=2 and at least one handled variable (probability of an accidental tie is negligible for continuous draws)"]
 REQUIRED = {"quick": {"calls_checked": 5000, "qmc_vectors_matched": 8000, "qmc_multidim_cases": 300, "lhs_strata_checked": 300, "shared_checked": 600,
                       "unhandled_zero_entries": 5000, "e2e_checked": 150, "__nontrivial__": 1500},
             "thorough": {"calls_checked": 120000, "qmc_vectors_matched": 200000, "qmc_multidim_cases": 8000, "lhs_strata_checked": 8000, "shared_checked": 15000,
@@ -88,7 +89,14 @@ def run_case(case, obs):
     _REC["on"] = True
     try:
         sampler = pm.get_plugin("sampler", samplers[0]["method"]).create(cfg, 0, arg_mask, gen)
-        outs = [np.array(sampler.generate_samples(), copy=True) for _ in range(3)]
+        outs = []
+        for _ in range(3):
+            ret = sampler.generate_samples()
+            outs.append(np.array(ret, copy=True))
+            # the only caller in ropt accumulates the other samplers' output into the returned array
+            # ("samples += ..."): emulate that, a later call must not be affected by it
+            if ret.flags.writeable:
+                ret += 1234.5
     finally:
         _REC["on"] = False
     log = list(_REC["log"])
@@ -171,6 +179,10 @@ def _e2e(case, obs):
     spec = {"V": V, "R": R, "P": P, "rweights": [1.0] * R, "oweights": [1.0], "n_con": 0, "x0": rng.normal(size=V).tolist(), "mask": mask,
             "seed": int(rng.integers(0, 10**6)), "ensemble": {"kind": "hash"}, "nan": [], "magnitudes": [0.25], "btypes": [1],
             "samplers": [{"method": method, "shared": bool(rng.random() < 0.4)}]}
+    two = rng.random() < 0.5
+    if two:
+        spec["samplers"].append({"method": METHODS[int(rng.integers(6))], "shared": bool(rng.random() < 0.4)})
+        spec["smap"] = [int(t) for t in rng.integers(0, 2, size=V)]
     case["spec"] = spec
     cfg = ens.make_config(spec)
     ev = ens.RecordingEvaluator(spec)
@@ -178,9 +190,28 @@ def _e2e(case, obs):
     _REC["on"] = True
     try:
         ee = EnsembleEvaluator(cfg, None, ev, ens.plugin_manager())
-        _, gres = ee.calculate(np.array(spec["x0"]), compute_functions=True, compute_gradients=True)
+        for _ in range(int(rng.integers(1, 4))):
+            _, gres = ee.calculate(np.array(spec["x0"]), compute_functions=True, compute_gradients=True)
     finally:
         _REC["on"] = False
+    if two:
+        d = (np.asarray(gres.evaluations.perturbed_variables) - np.asarray(gres.evaluations.variables)) / 0.25
+        handled = np.ones(V, dtype=bool) if mask is None else np.array(mask)
+        obs.count("e2e_checked")
+        obs.count("e2e_two_samplers")
+        obs.nontrivial("e2e", case["i"])
+        if not np.all(d[..., ~handled] == 0.0):
+            obs.violation("e2e_fixed_variable_perturbed", mask=mask, delta=d[0, 0])
+            return
+        for k, sm in enumerate(spec["samplers"]):
+            cols = handled & (np.array(spec["smap"]) == k)
+            if sm["method"] in BOUNDED and cols.any() and np.max(np.abs(d[..., cols])) > 1.0 + 1e-9:
+                obs.violation("e2e_out_of_range", method=sm["method"], sampler=k, max=float(np.max(np.abs(d[..., cols]))))
+                return
+            if sm["shared"] and cols.any() and not all(np.array_equal(d[0][:, cols], d[r][:, cols]) for r in range(R)):
+                obs.violation("e2e_shared_realizations_differ", sampler=k)
+                return
+        return
     d = (np.asarray(gres.evaluations.perturbed_variables) - np.asarray(gres.evaluations.variables)) / 0.25
     obs.count("e2e_checked")
     obs.nontrivial("e2e", case["i"])
